@@ -33,6 +33,8 @@ pub struct SqlScenario {
     /// only templates with an independent reference evaluator
     pub need_reference: bool,
     pub weight: u64,
+    /// C31: the scans accept pushed-down filters and dynamic filter pushdown is forced on
+    pub dynamic_filters: bool,
 }
 
 fn gen_table(rng: &mut Rng, tier: Tier, small: bool) -> Value {
@@ -106,10 +108,28 @@ impl Scenario for SqlScenario {
             },
             _ => {}
         }
+        let mut knobs = sqlsim::generate_cfg(rng);
+        if self.dynamic_filters {
+            // memory pressure is not C31's subject (and would only re-find the NLJ fallback findings)
+            env["pool"] = json!({"kind": "unbounded", "limit": 0, "neighbour": []});
+            a["filters"] = json!(true);
+            b["filters"] = json!(true);
+            for k in [
+                "datafusion.optimizer.enable_dynamic_filter_pushdown",
+                "datafusion.optimizer.enable_join_dynamic_filter_pushdown",
+                "datafusion.optimizer.enable_topk_dynamic_filter_pushdown",
+                "datafusion.optimizer.enable_aggregate_dynamic_filter_pushdown",
+            ] {
+                knobs[k] = json!(true);
+            }
+            // bounds / IN-list / hash-lookup strategies of the join filter
+            knobs["datafusion.optimizer.hash_join_inlist_pushdown_max_size"] = json!(*rng.pick(&[0u64, 64, 131072]));
+            knobs["datafusion.optimizer.hash_join_inlist_pushdown_max_distinct_values"] = json!(*rng.pick(&[0u64, 2, 150]));
+        }
         json!({
             "tables": {"a": a, "b": b},
             "query": q,
-            "knobs": sqlsim::generate_cfg(rng),
+            "knobs": knobs,
             "env": env,
             "consume": *rng.pick(&["stream", "partitions"]),
             "drop_after": drop_after,
